@@ -91,6 +91,14 @@ class Drive:
             kw['delay'] = delay
         if mode == 'event':
             self.interp.queue(Event(name, **kw))
+        elif mode == 'multi':
+            # queue(a, b): two events in one call, the second one as an Event instance
+            kw2 = dict(kw)
+            kw2['uid'] = str(uid) + 'b'
+            self.interp.queue(Event(name, **kw), Event(name + '_2', **kw2))
+            self.qm.push('ext', self.interp.time + (delay or 0), uid, name)
+            self.qm.push('ext', self.interp.time + (delay or 0), kw2['uid'], name + '_2')
+            return
         else:
             self.interp.queue(name, **kw)
         self.qm.push('ext', self.interp.time + (delay or 0), uid, name)
